@@ -2,9 +2,11 @@ package main
 
 import (
 	"fmt"
+	"go/ast"
 	"go/token"
 	"go/types"
 	"sort"
+	"strconv"
 	"strings"
 
 	"golang.org/x/tools/go/ssa"
@@ -29,6 +31,8 @@ func checkC02(w *World, r *Report) {
 	ru7 := r.Rule("C02.7", "every reader reads its own root: Has/Route/iterators of a transaction look in the transaction's root (uncommitted writes included), iterators in their snapshot root, router methods in the tree they loaded; the matchers are entered only through the root dispatcher", 5)
 	lookupRootObligations(w, ru7)
 	checkC02Errors(w, r)
+	checkC02ConflictScope(w, r)
+	checkC02PatternHostIntact(w, r)
 }
 
 // ---- C02.1 ---------------------------------------------------------------------------------------------------
@@ -475,4 +479,335 @@ func contains(xs []string, s string) bool {
 		}
 	}
 	return false
+}
+
+// ---- C02.8 -------------------------------------------------------------------------------------------------
+
+// gridEval evaluates a boolean source expression for concrete values of two integer quantities (given by the suffix of
+// their source text); sub-expressions that mention anything else are unknown. Single-definition locals are unfolded.
+type gridEval struct {
+	defs  map[string]ast.Expr
+	ndefs map[string]int
+	aSfx  string
+	bSfx  string
+}
+
+func newGridEval(body ast.Node, aSfx, bSfx string) *gridEval {
+	g := &gridEval{defs: map[string]ast.Expr{}, ndefs: map[string]int{}, aSfx: aSfx, bSfx: bSfx}
+	ast.Inspect(body, func(n ast.Node) bool {
+		switch x := n.(type) {
+		case *ast.AssignStmt:
+			if len(x.Lhs) == len(x.Rhs) {
+				for i, l := range x.Lhs {
+					if id, ok := l.(*ast.Ident); ok {
+						g.defs[id.Name] = x.Rhs[i]
+						g.ndefs[id.Name]++
+					}
+				}
+			} else {
+				for _, l := range x.Lhs {
+					if id, ok := l.(*ast.Ident); ok {
+						g.ndefs[id.Name] += 2
+					}
+				}
+			}
+		case *ast.IncDecStmt:
+			if id, ok := x.X.(*ast.Ident); ok {
+				g.ndefs[id.Name] += 2
+			}
+		}
+		return true
+	})
+	return g
+}
+
+func (g *gridEval) num(e ast.Expr, a, b int64, depth int) (int64, bool) {
+	if depth > 6 {
+		return 0, false
+	}
+	switch x := e.(type) {
+	case *ast.ParenExpr:
+		return g.num(x.X, a, b, depth+1)
+	case *ast.BasicLit:
+		if x.Kind == token.INT {
+			v, err := strconv.ParseInt(x.Value, 0, 64)
+			return v, err == nil
+		}
+	case *ast.Ident:
+		if d, ok := g.defs[x.Name]; ok && g.ndefs[x.Name] == 1 {
+			return g.num(d, a, b, depth+1)
+		}
+	case *ast.CallExpr: // conversions such as int(x)
+		if len(x.Args) == 1 {
+			if id, ok := x.Fun.(*ast.Ident); ok && (strings.HasPrefix(id.Name, "int") || strings.HasPrefix(id.Name, "uint")) {
+				return g.num(x.Args[0], a, b, depth+1)
+			}
+		}
+	}
+	s := exprStr(e)
+	switch {
+	case strings.HasSuffix(s, g.aSfx):
+		return a, true
+	case strings.HasSuffix(s, g.bSfx):
+		return b, true
+	}
+	return 0, false
+}
+
+// eval returns (value, known).
+func (g *gridEval) eval(e ast.Expr, a, b int64, depth int) (bool, bool) {
+	if depth > 8 {
+		return false, false
+	}
+	switch x := e.(type) {
+	case *ast.ParenExpr:
+		return g.eval(x.X, a, b, depth+1)
+	case *ast.UnaryExpr:
+		if x.Op == token.NOT {
+			v, k := g.eval(x.X, a, b, depth+1)
+			return !v, k
+		}
+	case *ast.Ident:
+		if x.Name == "true" {
+			return true, true
+		}
+		if x.Name == "false" {
+			return false, true
+		}
+		if d, ok := g.defs[x.Name]; ok && g.ndefs[x.Name] == 1 {
+			return g.eval(d, a, b, depth+1)
+		}
+	case *ast.BinaryExpr:
+		switch x.Op {
+		case token.LAND, token.LOR:
+			l, lk := g.eval(x.X, a, b, depth+1)
+			r, rk := g.eval(x.Y, a, b, depth+1)
+			if x.Op == token.LAND {
+				switch {
+				case lk && !l, rk && !r:
+					return false, true
+				case lk && rk:
+					return true, true
+				}
+				return false, false
+			}
+			switch {
+			case lk && l, rk && r:
+				return true, true
+			case lk && rk:
+				return false, true
+			}
+			return false, false
+		case token.LSS, token.LEQ, token.GTR, token.GEQ, token.EQL, token.NEQ:
+			l, lk := g.num(x.X, a, b, depth+1)
+			r, rk := g.num(x.Y, a, b, depth+1)
+			if !lk || !rk {
+				return false, false
+			}
+			switch x.Op {
+			case token.LSS:
+				return l < r, true
+			case token.LEQ:
+				return l <= r, true
+			case token.GTR:
+				return l > r, true
+			case token.GEQ:
+				return l >= r, true
+			case token.EQL:
+				return l == r, true
+			default:
+				return l != r, true
+			}
+		}
+	}
+	return false, false
+}
+
+// checkC02ConflictScope: the wildcard-separator rule of insert's split case scans the common prefix backwards for a
+// '/'. A hostname contains none, and route.hostSplit is the index of the first '/' of the pattern, so the prefix
+// path[:charsMatched] can only contain one when charsMatched > hostSplit. Applying the scan for charsMatched <=
+// hostSplit refuses legal hostname routes with a spurious ErrRouteConflict; not applying it beyond lets conflicting
+// path wildcards in. The guard only compares the two indexes, so it is evaluated for every ordering.
+func checkC02ConflictScope(w *World, r *Report) {
+	ru := r.Rule("C02.8", "scope of the path conflict rule: in tXn.insert the backward scan of the common prefix for '/' (the {param}/*{catch-all} separator rule) is reachable exactly when result.charsMatched > route.hostSplit, and the hostname variant (scan for '.') exactly when charsMatched <= hostSplit; decided by evaluating the guards for every ordering of the two indexes", 2)
+	af := w.astFuncOf(modulePath, "tXn.insert")
+	g := newGridEval(af.decl.Body, ".charsMatched", ".hostSplit")
+	found := 0
+	ast.Inspect(af.decl.Body, func(n ast.Node) bool {
+		fs, ok := n.(*ast.ForStmt)
+		if !ok || fs.Body == nil {
+			return true
+		}
+		// which delimiter ends the scan?
+		delim := ""
+		ast.Inspect(fs.Body, func(m ast.Node) bool {
+			ifs, ok := m.(*ast.IfStmt)
+			if !ok || len(ifs.Body.List) != 1 {
+				return true
+			}
+			if br, ok := ifs.Body.List[0].(*ast.BranchStmt); !ok || br.Tok != token.BREAK {
+				return true
+			}
+			if x, y, ok := isCmp(ifs.Cond, token.EQL); ok && strings.HasSuffix(x, "[i]") {
+				delim = y
+			}
+			return true
+		})
+		var wantGreater bool
+		switch delim {
+		case "'/'", "slashDelim":
+			wantGreater = true
+		case "'.'", "dotDelim":
+			wantGreater = false
+		default:
+			return true
+		}
+		b, _ := af.blockOf(fs.Cond)
+		if b == nil {
+			return true
+		}
+		found++
+		facts := af.factsAt(b)
+		bad, undecided := "", 0
+		for a := int64(0); a <= 3; a++ {
+			for bb := int64(0); bb <= 3; bb++ {
+				reach, known := true, false
+				for _, f := range facts {
+					v, k := g.eval(f.e, a, bb, 0)
+					if !k {
+						continue
+					}
+					known = true
+					if v != f.val {
+						reach = false
+					}
+				}
+				if !known {
+					undecided++
+					continue
+				}
+				if want := (a > bb) == wantGreater; reach != want && bad == "" {
+					bad = fmt.Sprintf("for charsMatched=%d, hostSplit=%d the scan is %sreachable", a, bb, map[bool]string{true: "", false: "not "}[reach])
+				}
+			}
+		}
+		name := map[bool]string{true: "scan for '/' (path rule)", false: "scan for '.' (hostname rule)"}[wantGreater]
+		if undecided > 0 && bad == "" {
+			r.Unrecognised("C02.8: the guards of the %s at %s do not only compare charsMatched and hostSplit", name, w.Pos(fs.Pos()))
+			return true
+		}
+		ru.Check(name+" in tXn.insert", w.Pos(fs.Pos()), map[bool]string{true: "reachable iff charsMatched > hostSplit", false: "reachable iff charsMatched <= hostSplit"}[wantGreater], bad == "", orDefault(bad, "all 16 orderings agree"))
+		return true
+	})
+	if found < 2 {
+		r.Unrecognised("C02.8: the separator scans of tXn.insert were not found (%d)", found)
+	}
+}
+
+// ---- C02.9 -------------------------------------------------------------------------------------------------
+
+// checkC02PatternHostIntact: Has/Route/Routes find a pattern by running it through the request matcher, whose entry
+// (roots.lookup) normalises the host with netutil.StripHostPort. A pattern host may contain ':' inside a parameter name
+// ({a:1}.b); the normaliser must therefore cut a ":suffix" only when it is a numeric port — as its sibling
+// netutil.SplitHostPort does, through which SplitHostPath already sent the pattern. Sibling agreement inside netutil.
+func checkC02PatternHostIntact(w *World, r *Report) {
+	ru := r.Rule("C02.9", "exact lookups see the pattern's host intact: netutil.StripHostPort, applied by roots.lookup to the host of Has/Route/Routes as to request hosts, uses the host part of net.SplitHostPort only after the port part passed the numeric-port validator that netutil.SplitHostPort uses", 1)
+	np := modulePath + "/internal/netutil"
+	strip, split := w.FuncIn(np, "StripHostPort"), w.FuncIn(np, "SplitHostPort")
+	if strip == nil || split == nil {
+		r.Unrecognised("C02.9: netutil.StripHostPort / SplitHostPort not found")
+		return
+	}
+	r.Analysed(FuncName(strip), FuncName(split))
+	// the validator: the netutil function SplitHostPort calls
+	var validator *ssa.Function
+	eachInstr(split, func(in ssa.Instruction) {
+		if c, ok := in.(*ssa.Call); ok {
+			if cal := c.Call.StaticCallee(); cal != nil && cal.Pkg == split.Pkg {
+				validator = cal
+			}
+		}
+	})
+	if validator == nil {
+		r.Unrecognised("C02.9: netutil.SplitHostPort no longer validates the port through a helper")
+		return
+	}
+	var sp *ssa.Call
+	eachInstr(strip, func(in ssa.Instruction) {
+		if c, ok := in.(*ssa.Call); ok && isFuncNamed(calleeObj(c), "net", "SplitHostPort") {
+			sp = c
+		}
+	})
+	if sp == nil {
+		ru.Pass("netutil.StripHostPort", w.Pos(strip.Pos()), "does not use net.SplitHostPort", "no lenient split")
+		return
+	}
+	var hostV, portV ssa.Value
+	if refs := sp.Referrers(); refs != nil {
+		for _, ref := range *refs {
+			if ex, ok := ref.(*ssa.Extract); ok {
+				switch ex.Index {
+				case 0:
+					hostV = ex
+				case 1:
+					portV = ex
+				}
+			}
+		}
+	}
+	dependsOn := func(v, on ssa.Value) bool {
+		seen := map[ssa.Value]bool{}
+		var walk func(x ssa.Value, d int) bool
+		walk = func(x ssa.Value, d int) bool {
+			if x == nil || seen[x] || d > 10 {
+				return false
+			}
+			seen[x] = true
+			if x == on {
+				return true
+			}
+			if in, ok := x.(ssa.Instruction); ok {
+				for _, op := range in.Operands(nil) {
+					if op != nil && *op != nil && walk(*op, d+1) {
+						return true
+					}
+				}
+			}
+			return false
+		}
+		return walk(v, 0)
+	}
+	var vcall *ssa.Call
+	if portV != nil {
+		eachInstr(strip, func(in ssa.Instruction) {
+			if c, ok := in.(*ssa.Call); ok && c.Call.StaticCallee() == validator && len(c.Call.Args) == 1 && dependsOn(c.Call.Args[0], portV) {
+				vcall = c
+			}
+		})
+	}
+	why := ""
+	switch {
+	case portV == nil:
+		why = "the port part returned by net.SplitHostPort is discarded: any text after the last ':' is cut off (\"{a:1}.b\" becomes \"{a\")"
+	case vcall == nil:
+		why = "the port part is not passed to " + FuncName(validator)
+	default:
+		// every return of a value derived from the host part happens under validator(...) == true
+		eachInstr(strip, func(in ssa.Instruction) {
+			ret, ok := in.(*ssa.Return)
+			if !ok || hostV == nil || !dependsOn(ret.Results[0], hostV) {
+				return
+			}
+			okf := false
+			for _, ft := range factsAtBlock(ret.Block()) {
+				if ft.Cond == ssa.Value(vcall) && ft.Val {
+					okf = true
+				}
+			}
+			if !okf {
+				why = "the host part is returned at " + w.InstrPos(ret) + " without the port having been validated"
+			}
+		})
+	}
+	ru.Check("netutil.StripHostPort", w.Pos(sp.Pos()), "cuts \":port\" only when the port is numeric ("+FuncName(validator)+"), like netutil.SplitHostPort", why == "", orDefault(why, "validated"))
 }
